@@ -98,6 +98,84 @@ def extract_table(P, f):
     return table
 
 
+def check_state_owners(res, P):
+    """The state machines *of the stack* are State::apply plus the two places that hold and advance the per-peer states.  Two
+    structural clauses keep the one-step relation checked above the whole relation:
+      (o1) every other `&mut self` method of a protocol State (today: drain) leaves the state class alone — it never assigns `*self`
+           as a whole (assignment, mem::take/replace/swap) and never sets its discriminant; it may only change the payload of the
+           current variant;
+      (o2) InitiatorState::apply_msg / ResponderState::apply_msg hand every message of protocol P to P's State::apply, conditioned on
+           nothing but the message's protocol (no guard on the current state or anything else in front of the call), store the Ok
+           state back and flag the Err as a violation."""
+    from pv import flow, guards
+    from pv.mir import pl_local, pl_proj, op_place
+    n_mut = 0
+    for f in P.by_crate.get("pallas_network2", []):
+        if "::protocol::" not in f.path or f.argc < 1 or f.kind in ("Closure",):
+            continue
+        ty = f.local_ty(1)
+        if not (ty.startswith("&mut pallas_network2::protocol::") and "::State" in ty):
+            continue
+        if f.name == "apply":
+            continue
+        n_mut += 1
+        bad = None
+        # per tabulated path: the state class the path starts in (from the conditions on discr(*self)) and every whole write
+        try:
+            paths = tabulate(f, P, 512)
+        except Exception as e:   # budget / unsupported construct: fail closed
+            paths = None
+            bad = "cannot be tabulated (%s)" % e
+        for pth in paths or []:
+            start = None
+            for c in pth.conds:
+                cv = cond_variants(P, c)
+                if cv and cv[0] == "*self":
+                    start = cv[1] if start is None else (start & cv[1])
+            for place, val in pth.writes:
+                if sym_str(place, 40) != "*self":
+                    continue
+                if val[0] == "agg" and isinstance(val[2], str):
+                    if start is None or start != {val[2]}:
+                        bad = "sets the state to %s on a path that starts in %s" % (val[2], sorted(start) if start else "any state")
+                else:
+                    bad = "overwrites *self with a value whose state class is not evident (%s)" % sym_str(val, 60)
+            for c in pth.calls:
+                name = strip_adt(c[0]) if False else c[0]
+                if re.search(r"^(core|std)::mem::(take|replace|swap)", name):
+                    if any(sym_str(a, 40) in ("self", "*self", "&*self") for a in c[1][:1]):
+                        bad = "replaces *self through %s" % name.split("::")[2].split("<")[0]
+        key = "owner:state-class-preserved:%s" % f.path.split("protocol::")[-1]
+        if bad:
+            res.violation(key, "%s %s: a method other than apply() changes the protocol state class, so the relation checked on apply() is no longer the whole relation "
+                          "(a pending request can be forgotten, a terminal state revived)" % (f.path, bad), where="%s:%s" % (f.file, f.line), rule="R-WRITERS")
+        else:
+            res.ok(key, "R-WRITERS", "only the payload of the current variant can change")
+    res.count("State mutators other than apply", n_mut)
+    n_app = 0
+    for f in P.find(r"pallas_network2::behavior::(initiator::InitiatorState|responder::ResponderState)::apply_msg$"):
+        who = "initiator" if "initiator" in f.path else "responder"
+        for bi, t in f.calls():
+            name = flow.callee_name(t)
+            if not (name.endswith("::apply") and "pallas_network2::protocol::" in name and "State" in name):
+                continue
+            n_app += 1
+            proto = name.split("protocol::")[-1].split("::")[0]
+            key = "owner:apply_msg:%s:%s" % (who, proto)
+            other = []
+            for fact in guards.facts_at(f, bi, kill=False):
+                l = fact.l
+                ok = l[0] == "discr" and (flow.origin_chain(l[1]) or (None,))[0] == ("param", 2)
+                if not ok:
+                    other.append(sym_str(l, 80))
+            if other:
+                res.violation(key, "%s::apply_msg calls %s::State::apply only under the extra condition(s) %s: some messages of the protocol bypass the state machine "
+                              "(no violation is flagged for them)" % (who, proto, sorted(set(other))), where="%s:%s" % (f.file, f.line), rule="R-MPT")
+            else:
+                res.ok(key, "R-MPT", "every %s message goes through State::apply" % proto)
+    res.floor("apply_msg dispatch sites", n_app, 10)
+
+
 def run(tier):
     res = Result("C24", tier, level="other")
     spec = json.load(open(os.path.join(VERIF, "spec", "ouroboros.json")))
@@ -203,6 +281,7 @@ def run(tier):
                             res.violation(key, "%s: the state after (%s, %s) carries %s, which does not originate from the received message" % (
                                 proto, s, m, [sym_str(x, 80) for x in payload]), where="%s:%s" % (f.file, f.line), rule="R-PROV")
     res.exhaustive = True
+    check_state_owners(res, P)
     res.floor("protocol state machines", found, 8)
     res.floor("cells compared", n_cells, 150)
     res.count("cells", n_cells)
